@@ -12,10 +12,20 @@ ASSUMPTIONS = [
 ]
 
 WITNESS = {
-    "F-19-fifo": (BY["fifo"], "policy fifo m 1 1 m 1 50 e 1", "readmit-cost"),
-    "F-19-clock": (BY["clock"], "policy clock m 1 1 m 1 50 e 1", "readmit-cost"),
+    "F-19-fifo": (BY["fifo"], "fifo m 1 1 m 1 50 e 1", "readmit-cost"),
+    "F-19-clock": (BY["clock"], "clock m 1 1 m 1 50 e 1", "readmit-cost"),
 }
 
 
 def run(tier, seed):
     return flow.standard("C14", tier, seed, ENGINES, ASSUMPTIONS, WITNESS)
+
+MANIFEST = {
+    "engine": "E-POLICY",
+    "engines": [{"name": "E-POLICY", "path": "coq/Cache/Policy*.v, coq/Proofs/Policy*Proofs.v, ocaml/eng_policy.ml, harness/seqdrv/src/bin/policy.rs",
+                 "kind": "K1 pure-function models of the eviction policies; contract proved for all call sequences; D1 differential tie through the public CachePolicy trait"}],
+    "technique": "Coq proof of the policy contract for all call sequences (induction over calls) + differential correspondence of the extracted model against fibre_cache::policy::*",
+    "text": "Coq theorems (Props/C14.v): for every call sequence, Lru/Sieve satisfy the full C14 contract (victims tracked, no duplicates, exact recorded costs, tracking ends only via victim/remove/clear, evict frees >= n when possible, re-admission updates cost); Fifo/Clock satisfy it except the re-admission clause, which is refuted on the faithful model (known finding F-19) and replayed on the implementation. LRU/FIFO eviction-order theorems. The hand-written model is tied to the code by running the extracted model and the real policies on the same generated call sequences every run.",
+    "design_ref": "DESIGN.md §8 C14, §7 E-POLICY",
+    "note": "Trusted: Coq kernel, ExtrOcamlBasic extraction + OCaml driver, the D1 harness/generators. Modelled not verified: arena/HashMap internals (abstracted to ordered lists), u64 overflow.",
+}
